@@ -421,6 +421,13 @@ func rootReuseDump(pj *simdjson.ParsedJson) (s string, err error) {
 // Object.ForEach's callback, or Array.Iter+AdvanceIter / Array.ForEach's callback.  Those
 // iterators see a tape view that ENDS with the element (AdvanceInto's sees the whole tape).
 func iterByPath(pj *simdjson.ParsedJson, path []int, route int) (res simdjson.Iter, ok bool) {
+	return iterByPathMode(pj, path, route, false)
+}
+
+// iterByPathMode: with restrictedOnly, only the routes whose iterators are cut to the element
+// (Parse, NextElementBytes, AdvanceIter); the ForEach callbacks pass a copy of the walking
+// iterator, whose scope is the rest of the container.
+func iterByPathMode(pj *simdjson.ParsedJson, path []int, route int, restrictedOnly bool) (res simdjson.Iter, ok bool) {
 	defer func() {
 		if r := recover(); r != nil {
 			ok = false
@@ -449,7 +456,11 @@ func iterByPath(pj *simdjson.ParsedJson, path []int, route int) (res simdjson.It
 			if err != nil {
 				return res, false
 			}
-			switch rt % 3 {
+			k3 := rt % 3
+			if restrictedOnly {
+				k3 = rt % 2
+			}
+			switch k3 {
 			case 0:
 				els, err := obj.Parse(nil)
 				if err != nil || idx >= len(els.Elements) {
@@ -479,7 +490,7 @@ func iterByPath(pj *simdjson.ParsedJson, path []int, route int) (res simdjson.It
 			if err != nil {
 				return res, false
 			}
-			if rt%2 == 0 {
+			if rt%2 == 0 || restrictedOnly {
 				ai := arr.Iter()
 				var d simdjson.Iter
 				for j := 0; j <= idx; j++ {
